@@ -100,3 +100,64 @@ def opWSEQ (args obs : List String) : Option DecOut :=
          branch := "wseq." ++ ",".intercalate (acc.branches.eraseDups.take 6) }
 
 end FV.Driver
+
+namespace FV.Driver
+/-- `WC scenario n listen peer seed => res=… frames=… closes=… closed=… reverted=… listen=… extra=… maxw=… maxr=… maxms=…` -/
+def opWC (args obs : List String) : Option DecOut :=
+  match args with
+  | [scen, ns, ls, peer, _] =>
+    let n := ns.toNat?.getD 0
+    let listen := ls == "t"
+    let all := " ".intercalate obs
+    if obs.headD "" == "hang" || (obs.headD "").startsWith "crash" then
+      some { corr := some s!"go=[{all}]",
+             fails := [s!"C15 {scen} n={n} listen={ls} peer={peer}: {all}"], branch := s!"wc.{scen}.crash" }
+    else
+    let res := ((field "res=" obs).getD "").splitOn "," |>.filter (· ≠ "")
+    let frames := ((field "frames=" obs).bind String.toNat?).getD 99
+    let closes := ((field "closes=" obs).bind String.toNat?).getD 99
+    let closed := (field "closed=" obs) == some "true"
+    let reverted := (field "reverted=" obs) == some "true"
+    let lres := (field "listen=" obs).getD "?"
+    let extra := (field "extra=" obs).getD ""
+    let maxw := ((field "maxw=" obs).bind String.toNat?).getD 99
+    let maxr := ((field "maxr=" obs).bind String.toNat?).getD 99
+    let maxms := ((field "maxms=" obs).bind String.toNat?).getD 99999
+    -- ---- oracle: the statement of C15 / C16 on what the real connection did ----
+    let proceeding := res.filter (· ≠ "multiple")
+    let f15 :=
+      (if proceeding.length ≤ 1 then [] else [s!"C15 {proceeding.length} close calls proceeded"]) ++
+      (if frames ≤ 1 then [] else [s!"C15 {frames} close frames written"]) ++
+      (if closes == 1 then [] else [s!"C15 underlying connection closed {closes} times"]) ++
+      (if closed && !reverted then [] else ["C15 Closed() is false after closing or reverted to false"]) ++
+      (if maxms ≤ 150 + 400 then [] else [s!"C15 a close call took {maxms} ms with a 150 ms close deadline"]) ++
+      (if lres == "hang" then ["C15 Listen did not return after the connection was closed"] else []) ++
+      (if (extra.splitOn "hang").length > 1 then ["C15 a later Listen call did not return"] else [])
+    let f16 :=
+      (if maxw ≤ 1 then [] else [s!"C16 {maxw} goroutines inside the underlying WriteMessage at once"]) ++
+      (if maxr ≤ 1 then [] else [s!"C16 {maxr} goroutines inside the underlying ReadMessage at once"])
+    -- ---- expectation derived from the model (deterministic parts of the scenario) ----
+    let internalWins := listen && (peer == "first1000" || peer == "first1001" || peer == "sever")
+    let winner :=
+      if peer == "echo" then "nil"
+      else if peer == "silent" then (if listen then "deadline" else "nil")
+      else if peer == "writefail" then "other"
+      else "nil"
+    let nClosers := if scen == "writers" then 2 else if scen == "relisten" then 1 else n
+    let wantRes : List String :=
+      if scen == "relisten" then [if peer == "silent" then "deadline" else "nil"]
+      else if internalWins then List.replicate nClosers "multiple"
+      else (List.replicate (nClosers - 1) "multiple") ++ [winner]
+    let wantFrames := if peer == "writefail" then 0 else if peer == "sever" && listen then 0 else 1
+    let wantListen :=
+      if scen == "relisten" then (if n == 0 then "nil" else "-")
+      else if !listen then "-"
+      else if peer == "first1001" then "close1001" else if peer == "sever" then "neterr" else "nil"
+    let wantExtra := if scen != "relisten" then "" else if n == 0 then "already" else "+".intercalate (List.replicate (n + 1) "nil")
+    let sortS (l : List String) := l.toArray.qsort (· < ·) |>.toList
+    let corr :=
+      if sortS res == sortS wantRes && frames == wantFrames && lres == wantListen && extra == wantExtra then none
+      else some s!"model=(res={sortS wantRes} frames={wantFrames} listen={wantListen} extra={wantExtra}) go=({all})"
+    some { corr := corr, fails := f15 ++ f16, branch := s!"wc.{scen}.{peer}.{ls}" }
+  | _ => none
+end FV.Driver
